@@ -410,7 +410,8 @@ def rule_e(ctx, ix, hub):
     from ..util import expand_locals as _xl
     stores = [st for st in walk_no_nested(f.node) if isinstance(st, ast.Assign) and isinstance(st.targets[0], ast.Subscript)
               and isinstance(st.value, ast.Tuple) and len(st.value.elts) == 3
-              and '_subscriptions' in unparse(_xl(f.node, st.targets[0].value))]
+              and ('_subscriptions' in unparse(_xl(f.node, st.targets[0].value)) or
+                   (len(f.params) > 2 and unparse(st.targets[0].slice) == f.params[2]))]      # <container>[message_class] = (h, f, p)
     if len(stores) != 1:
         raise AnalysisError('Hub.subscribe: the store of (handler, filter, priority) is no longer recognised')
     prio = stores[0].value.elts[2]
